@@ -44,3 +44,10 @@ func vEvent(kind string, vals []float64, pts ...Point64) {
 	vTraceEvents = append(vTraceEvents, VEvent{Kind: kind, Pts: append([]Point64{}, pts...), Vals: vals})
 	vTraceMu.Unlock()
 }
+
+func vBool(b bool) float64 {
+	if b {
+		return 1
+	}
+	return 0
+}
